@@ -503,6 +503,59 @@ try:
                 bad.append({"workers": workers, "files": n, "config": cfg, "sequential": len(seq), "parallel": len(par),
                             "only_sequential": [json.loads(x)["file_path"] + ":" + json.loads(x)["rule_id"] for x in seq if x not in par][:5],
                             "only_parallel": [json.loads(x)["file_path"] + ":" + json.loads(x)["rule_id"] for x in par if x not in seq][:5]})
+    # multi-language projects with PER-LANGUAGE override sections (property text: "generated multi-language projects that
+    # trigger per-file ... rules"): Python, TypeScript, JavaScript and Rust files whose nesting depth / class size lies
+    # between the top-level limit and the per-language limits, in several file orders
+    def nested(lang, i, depth):
+        if lang == "py":
+            body, ind = f"def fn_{i}(a):\n", "    "
+            for d in range(depth):
+                body += ind * (d + 1) + (f"if a > {d}:\n" if d % 2 == 0 else f"for b_{d} in range(a):\n")
+            return body + ind * (depth + 1) + f"return a + {3000 + i}\n\n\nclass Holder{i}:\n" + "".join(
+                f"    def method_{m}(self):\n        return {4000 + 10 * i + m}\n\n" for m in range(4))
+        if lang == "rs":
+            body = f"fn fn_{i}(a: i32) -> i32 {{\n"
+            for d in range(depth):
+                body += "    " * (d + 1) + f"if a > {d} {{\n"
+            body += "    " * (depth + 1) + f"return a + {3000 + i};\n"
+            for d in reversed(range(depth)):
+                body += "    " * (d + 1) + "}\n"
+            return body + "    a\n}\n"
+        body = f"export function fn_{i}(a) {{\n"
+        for d in range(depth):
+            body += "  " * (d + 1) + f"if (a > {d}) {{\n"
+        body += "  " * (depth + 1) + f"return a + {3000 + i};\n"
+        for d in reversed(range(depth)):
+            body += "  " * (d + 1) + "}\n"
+        return body + "  return a;\n}\n\nexport class Holder" + str(i) + " {\n" + "".join(
+            f"  method_{m}() {{ return {4000 + 10 * i + m}; }}\n" for m in range(4)) + "}\n"
+    ml = tmp / "multi"
+    ml.mkdir()
+    mfiles = {}
+    for i, (lang, depth) in enumerate([("py", 3), ("ts", 3), ("js", 3), ("rs", 3), ("py", 4), ("ts", 4), ("rs", 4), ("js", 2)]):
+        p = ml / f"unit_{i}.{lang}"
+        p.write_text(nested(lang, i, depth), encoding="utf-8")
+        mfiles[i] = p
+    OVERRIDES = [
+        {"nesting": {"max_nesting_depth": 4, "python": {"max_nesting_depth": 2}, "typescript": {"max_nesting_depth": 3}},
+         "srp": {"max_methods": 7, "python": {"max_methods": 3}}},
+        {"nesting": {"max_nesting_depth": 2, "rust": {"max_nesting_depth": 5}, "javascript": {"max_nesting_depth": 3}},
+         "srp": {"max_methods": 3, "typescript": {"max_methods": 8}}},
+    ]
+    ORDERS = [list(range(8)), [3, 2, 1, 0, 7, 6, 5, 4], [1, 0, 3, 2, 5, 4, 7, 6]]
+    for cfg in OVERRIDES:
+        for order in ORDERS:
+            fs = [mfiles[i] for i in order]
+            for workers in (1, 2):
+                seq = sorted(key(v) for v in orchestrator(tmp, json.loads(json.dumps(cfg))).lint_files(list(fs))
+                             if not v.rule_id.startswith(("dry.", "stringly-typed")))
+                par = sorted(key(v) for v in orchestrator(tmp, json.loads(json.dumps(cfg))).lint_files_parallel(list(fs), max_workers=workers)
+                             if not v.rule_id.startswith(("dry.", "stringly-typed")))
+                cases.append([workers, len(fs), len(seq)])
+                if seq != par:
+                    bad.append({"workers": workers, "order": [p.name for p in fs], "config": cfg, "sequential": len(seq), "parallel": len(par),
+                                "only_sequential": [Path(json.loads(x)["file_path"]).name + ":" + json.loads(x)["rule_id"] for x in seq if x not in par][:5],
+                                "only_parallel": [Path(json.loads(x)["file_path"]).name + ":" + json.loads(x)["rule_id"] for x in par if x not in seq][:5]})
     # "... and the same exit code": a run that the sequential mode cannot perform (a linter rejects its configuration:
     # one invalid value per linter family, taken from the documented constraints) must end the same way in parallel
     def outcome(fn):
@@ -545,7 +598,9 @@ def c07_pool_bounded(ctx):
     (12 distinct Python files with per-file findings, a project-level .thailint.yaml, an empty and a non-empty explicit
     configuration) for workers 1..3 and every file count from just below the sequential-fallback threshold (2 x workers)
     to past 3 x workers -- multiples and non-multiples of the worker count -- and compares the multisets of violations
-    (every field). Cross-file rules are excluded (known finding C07-parallel-cross-file). It also compares the OUTCOME
+    (every field). Cross-file rules are excluded (known finding C07-parallel-cross-file). A second project is
+    multi-language (Python / TypeScript / JavaScript / Rust files around the nesting and class-size limits) and is linted
+    under configurations with per-language override sections, in three file orders. It also compares the OUTCOME
     (violations, or the class and message of the error that ends the run) for 14 configurations with one invalid value
     per linter family: a run the sequential mode refuses must be refused identically by the pool."""
     import json
@@ -569,7 +624,8 @@ def c07_pool_bounded(ctx):
                  "model_inputs": {"stderr": (p.stderr or "")[-1500:]}, "ms": round((time.time() - t0) * 1000)}]
     bad = res["bad"]
     return [{"name": name, "kind": "bounded", "verdict": "passed" if not bad else "refuted", "tool": "cpython differential",
-             "budget": "workers 1..3 x file counts 2w-1 .. 3w+1, 2 configurations; 14 invalid configurations", "cases": len(res["cases"]),
+             "budget": "workers 1..3 x file counts 2w-1 .. 3w+1, 2 configurations; 8 py/ts/js/rs files x 2 per-language override "
+                       "configurations x 3 orders x 2 worker counts; 14 invalid configurations", "cases": len(res["cases"]),
              "note": "" if not bad else f"parallel != sequential: {bad[:2]}", "witness_confirmed": bool(bad),
              "model_inputs": {"disagreements": bad} if bad else None, "ms": round((time.time() - t0) * 1000)}]
 
